@@ -218,6 +218,16 @@ def fresh_of_type(st, name, ty, inputs=None):
     elif k == "opaque":
         from .glue import Op
         v = Op(name, "param")
+    elif k == "where1d":
+        # the value of np.where(m) for an unknown 1-D boolean array m: a 1-tuple of increasing, distinct positions
+        from .gather import WhereIdx
+        from .lazy import LArr
+        n_ = fresh_int(name + ".n")
+        st.assume(n_ >= 0)
+        m = alloc_array(st, name + ".mask", "b", [n_])
+        m.name = name + ".mask"
+        v = WhereIdx(LArr("b", [n_], (lambda ix, st2, m=m: array_read(st2, m, ix)), None, "param-mask"))
+        v.param_mask = m
     elif k == "dict":
         v = {kk: fresh_of_type(st, "%s[%s]" % (name, kk), vv, None) for kk, vv in t[1].items()}
         if inputs is not None:
